@@ -34,4 +34,31 @@ theorem tdiv_nat (a b : Nat) : Int.tdiv (a : Int) (b : Int) = ((a / b : Nat) : I
 theorem tmod_nat (a b : Nat) : Int.tmod (a : Int) (b : Int) = ((a % b : Nat) : Int) := by
   rw [Int.tmod_eq_emod_of_nonneg (by omega)]; simp
 
+theorem ints_append (a b : List Nat) : ints (a ++ b) = ints a ++ ints b := by simp [ints]
+
+/-- `a[k] = v` seen from index `k` on: the written cell followed by the untouched rest (loops running DOWN from the last index) -/
+theorem drop_set_self {α} (l : List α) (k : Nat) (v : α) (h : k < l.length) : (l.set k v).drop k = v :: l.drop (k + 1) := by
+  rw [List.drop_eq_getElem_cons (by simpa using h)]; simp [List.drop_set_of_lt]
+
+/-- `a[k] = v` seen up to index `k`: the untouched prefix followed by the written cell (loops running UP from index 0) -/
+theorem take_set_succ {α} (l : List α) (k : Nat) (v : α) (h : k < l.length) : (l.set k v).take (k + 1) = l.take k ++ [v] := by
+  rw [List.take_succ_eq_append_getElem (by simpa using h)]; simp [List.take_set_of_le]
+
+theorem take_succ_getD (l : List Nat) (k : Nat) (h : k < l.length) : l.take (k + 1) = l.take k ++ [l[k]?.getD 0] := by
+  rw [List.take_succ_eq_append_getElem h]; simp [h]
+
+/-- `x[n-1]` of a non-empty array is the model's `getLastD` -/
+theorem getLastD_eq_getD {α} (l : List α) (d : α) (h : l ≠ []) : l.getLastD d = l[l.length - 1]?.getD d := by
+  cases l with
+  | nil => exact absurd rfl h
+  | cons a t => simp [List.getLast?_eq_getElem?]
+
+/-- element `k` of an array of structure fields (`ddims[k].field`) -/
+theorem ints_map_getD {α} (f : α → Nat) (l : List α) (k : Nat) (hk : k < l.length) :
+    (ints (l.map f)).getD k 0 = ((f l[k] : Nat) : Int) := by
+  simp [ints, hk]
+
+theorem getD_set_self {α} (l : List α) (k : Nat) (v d : α) (h : k < l.length) : (l.set k v).getD k d = v := by
+  simp [h]
+
 end H4.C2L
